@@ -498,7 +498,7 @@ NUM_VARIANTS = [b"0755", b"07", b"00", b"01", b"08", b"09", b"0_7", b"007e1", b"
                 b"1__0", b"1_", b"1_000_", b"1e", b"1e+", b"1e-", b"1E", b"1e999", b"1e-999", b"1e1_0", b"1.", b"1.e5", b"1._5", b"1.5.2", b"0.0.0",
                 b"1n", b"0n", b"1.5n", b"0x1Fn", b"1_n", b"00n", b"1u", b"1u99", b"1_u32", b"1usize", b"1f32", b"1.0f", b"1.0e10f64", b"0x1f32", b"0b1u8",
                 b"1i", b"1isize", b"u32", b"f64", b"1j", b"1J", b"1.5j", b"0xFFFFFFFFFFFFFFFFFFFFFFFFFFFFFFFF", b"0b" + b"1" * 300, b"0o" + b"7" * 300,
-                b"9" * 400, b"9" * 5000, b"0x" + b"F" * 5000, b"0." + b"3" * 400, b"1e" + b"9" * 40, b"1" + b"_0" * 200, b"0" * 50, b"0" * 50 + b"1",
+                b"9" * 400, b"9" * 5000, b"0x" + b"F" * 3000, b"0." + b"3" * 400, b"1e" + b"9" * 40, b"1" + b"_0" * 200, b"0" * 50, b"0" * 50 + b"1",
                 b"1_000_000", b"0_0", b"0xdead_beef", b"0XFF", b"0B1", b"0O7", b"1E5", b"1e05", b"0e0", b"-0", b"+1", b"--1", b"1 .5", b".5", b"5.",
                 "١٢٣".encode(), "１２".encode(), "1²".encode(), b"1'000", b"1,5", b"0x1p3", b"0x1.8p1", b"1e5L", b"1L", b"1l",
                 b"0777L", b"1.0d", b"NaN", b"Infinity", b"inf", b"1e400", b"4.9e-324", b"1.7976931348623157e308", b"18446744073709551616",
@@ -522,14 +522,19 @@ def m_numeric_literal(r, lang, b, mode=None, variants=None):
     return f"{mode}:{'|'.join(used[:4])}", res
 
 
-def numeric_sweep(lang: str) -> bytes:
-    """every spelling once, one statement per literal (deterministic part of every run)"""
-    if lang == "py":
-        body = b"".join(b"a%d = %s\n" % (i, v) for i, v in enumerate(NUM_VARIANTS))
-        return b'"""\nPurpose: numeric spellings\n"""\n' + body
-    if lang == "rs":
-        return b"fn spellings() {\n" + b"".join(b"    let a%d = %s;\n" % (i, v) for i, v in enumerate(NUM_VARIANTS)) + b"}\n"
-    return b"function spellings() {\n" + b"".join(b"  const a%d = %s;\n" % (i, v) for i, v in enumerate(NUM_VARIANTS)) + b"}\n"
+def numeric_sweep(lang: str, per_file: int = 10) -> list[bytes]:
+    """every spelling once, one statement per literal, a few literals per file so that one failing literal cannot hide the
+    others (deterministic part of every run; the > 3570-digit hexadecimal literal of the listed finding lives in corpus/C11)"""
+    out = []
+    for s0 in range(0, len(NUM_VARIANTS), per_file):
+        vs = list(enumerate(NUM_VARIANTS))[s0:s0 + per_file]
+        if lang == "py":
+            out.append(b'"""\nPurpose: numeric spellings\n"""\n' + b"".join(b"a%d = %s\n" % (i, v) for i, v in vs))
+        elif lang == "rs":
+            out.append(b"fn spellings() {\n" + b"".join(b"    let a%d = %s;\n" % (i, v) for i, v in vs) + b"}\n")
+        else:
+            out.append(b"function spellings() {\n" + b"".join(b"  const a%d = %s;\n" % (i, v) for i, v in vs) + b"}\n")
+    return out
 
 
 # ====================================================================== comment / directive payloads
